@@ -135,7 +135,8 @@ _LOAD_RET = ("tuple[seq[seq[real]],seq[real],arr2[real],int,int,int,opt[int],boo
              "opaque:BaseScheduler,opaque:BaseLoss,int,int,int,arr2[real],arr1[real],arr4[real],arr1[int],arr1[int]]")
 contract(f"{JP}::load_calibrator_state", params={"checkpoint_path": "opaque", "_code_state_version": "int"},
          returns=_LOAD_RET, props=["C04"],
-         requires=[f"disk_exists('{_H}')", f"len(disk_json('{_J}', 'parameters_precision')) >= 1",
+         requires=[f"disk_exists('{f}')" for f in (_J, _C, _H, "scheduler_pickled.pickle", "loss_function_pickled.pickle")]
+         + [f"len(disk_json('{_J}', 'parameters_precision')) >= 1",
                    # a well-formed checkpoint: one csv column per declared parameter, all of one length
                    f"forall(range(0, len(disk_json('{_J}', 'parameters_precision'))), lambda d: "
                    f"disk_csv_has('{_C}', f'params_samp_{{d}}') and len(disk_csv('{_C}', f'params_samp_{{d}}')) == "
@@ -234,3 +235,84 @@ _cal.ensures += [f"implies(self.saving_folder is not None and self.current_batch
 _cal.modifies.append("ghost.disk")
 REG["invariants"][(f"{CA}::Calibrator.calibrate", 1)].inv += [
     f"implies(self.saving_folder is not None and b >= 1, {e})" for e in CKPT_CORE]
+
+
+# ---- Calibrator.restore_from_checkpoint: the calibrator built from the folder IS the folder's state ------------------
+def of_result(clause):
+    """`self.x` -> `result.x`, `disk == self.x` read as `result.x == disk` - the same correspondence, seen from restore."""
+    return clause.replace("self.", "result.")
+
+
+_RESTORE_KEYS = ("'ensemble_size'", "'N'", "'verbose'", "'current_batch_index'", "'n_sampled_params'", "'n_jobs'",
+                 "'convergence_precision'", "'saving_file'", "'initial_random_seed'", "'random_generator_state'",
+                 "scheduler_pickled", "loss_function_pickled", "'losses_samp'", "'batch_num_samp'", "'method_samp'",
+                 "params_samp_", "'real_data'", "'parameters_precision'", "'parameters_bounds'")
+RESTORE_ENSURES = [of_result(e) for e in CKPT_ENSURES if any(k in e for k in _RESTORE_KEYS) and "disk_exists" not in e] + [
+    "result.model is model",
+    "result.D == result.real_data.shape[1]",
+    f"result.params_samp.shape[1] == len(disk_json('{_J}', 'parameters_precision')) and "
+    f"result.params_samp.shape[0] == len(disk_csv('{_C}', 'losses_samp'))",
+    # the series come back as stored
+    f"result.series_samp.shape[1] == disk_h5('{_H}', 'data').shape[1] and result.series_samp.shape[2] == disk_h5('{_H}', 'data').shape[2] "
+    f"and result.series_samp.shape[3] == disk_h5('{_H}', 'data').shape[3]",
+    f"result.series_samp.shape[0] == disk_h5('{_H}', 'data').shape[0] and forall(range(0, result.series_samp.shape[0]), "
+    f"lambda i: forall(range(0, result.series_samp.shape[1]), lambda e: forall(range(0, result.series_samp.shape[2]), "
+    f"lambda t: forall(range(0, result.series_samp.shape[3]), lambda c: result.series_samp[i, e, t, c] == disk_h5('{_H}', 'data')[i, e, t, c]))))",
+]
+_WELL_FORMED = [f"disk_exists('{f}')" for f in (_J, _C, _H, "scheduler_pickled.pickle", "loss_function_pickled.pickle")] + [
+    f"len(disk_json('{_J}', 'parameters_precision')) >= 1",
+    f"forall(range(0, len(disk_json('{_J}', 'parameters_precision'))), lambda d: disk_csv_has('{_C}', f'params_samp_{{d}}') "
+    f"and len(disk_csv('{_C}', f'params_samp_{{d}}')) == len(disk_csv('{_C}', 'losses_samp')))",
+    # what the constructor demands of its arguments (true of every checkpoint written by a live calibrator)
+    f"disk_json('{_J}', 'ensemble_size') >= 1 and disk_json('{_J}', 'N') >= 1",
+    f"disk_json('{_J}', 'real_data').shape[0] >= 1 and disk_json('{_J}', 'real_data').shape[1] >= 1",
+    "len(disk_pickle('scheduler_pickled.pickle').samplers) >= 1",
+]
+contract(f"{CA}::Calibrator.restore_from_checkpoint", params={"checkpoint_path": "opaque", "model": "opaque"},
+         returns="obj:Calibrator", props=["C04"], requires=_WELL_FORMED,
+         may_raise=["SearchSpaceError", "ValueError", "AssertionError", "Exception"],
+         ensures=RESTORE_ENSURES, modifies=[],
+         notes="the folder content is quantified over (any well-formed checkpoint of the declared schema)")
+
+# ---- THE C04 theorem for the JSON/CSV/HDF5 back-end: restore_from_checkpoint(create_checkpoint(c)) is c ----------------
+_CRT = ghost_function(CA, "def checkpoint_roundtrip(cal, folder, model):\n"
+                          "    cal.create_checkpoint(folder)\n"
+                          "    return Calibrator.restore_from_checkpoint(folder, model)\n")
+
+
+def _c(clause):
+    return clause.replace("self.", "cal.")
+
+
+_EQ_SCALAR = ["ensemble_size", "N", "D", "verbose", "current_batch_index", "n_sampled_params", "n_jobs"]
+_EQ_OPT = ["convergence_precision", "saving_folder", "random_state"]
+_EQ_VEC = ["losses_samp", "batch_num_samp", "method_samp"]
+_SERIES_EQ = ("result.series_samp.shape[0] == cal.series_samp.shape[0] and forall(range(0, cal.series_samp.shape[0]), lambda i: "
+              "forall(range(0, cal.series_samp.shape[1]), lambda e: forall(range(0, cal.series_samp.shape[2]), lambda t: "
+              "forall(range(0, cal.series_samp.shape[3]), lambda q: result.series_samp[i, e, t, q] == cal.series_samp[i, e, t, q]))))")
+contract(_CRT, params={"cal": "obj:Calibrator", "folder": "opaque", "model": "opaque"}, returns="obj:Calibrator",
+         props=["C04"],
+         requires=[_c(x) for x in REG["classes"]["Calibrator"].invariant] + [
+             "cal.real_data.shape[0] >= 1 and cal.param_grid.dims >= 1 and len(cal.param_grid.parameters_precision) == cal.param_grid.dims",
+             "len(cal.scheduler.samplers) >= 1"],
+         defs={"_same_run_prefix": ([], _c(_CKPT_PREFIX))},
+         may_raise=["SearchSpaceError", "ValueError", "AssertionError", "Exception"],
+         ensures=[f"result.{k} == cal.{k}" for k in _EQ_SCALAR]
+         + [f"(result.{k} is None) == (cal.{k} is None) and implies(cal.{k} is not None, result.{k} == cal.{k})" for k in _EQ_OPT]
+         + ["result.scheduler is cal.scheduler and result.loss_function is cal.loss_function and result.model is model",
+            "result.random_generator.state == cal.random_generator.state"]
+         + [f"len(result.{k}) == len(cal.{k}) and forall(range(0, len(cal.{k})), lambda i: result.{k}[i] == cal.{k}[i])" for k in _EQ_VEC]
+         + ["result.params_samp.shape[0] == cal.params_samp.shape[0] and result.params_samp.shape[1] == cal.params_samp.shape[1] and "
+            "forall(range(0, cal.params_samp.shape[0]), lambda i: forall(range(0, cal.params_samp.shape[1]), lambda d: "
+            "result.params_samp[i, d] == cal.params_samp[i, d]))",
+            "result.real_data.shape[0] == cal.real_data.shape[0] and result.real_data.shape[1] == cal.real_data.shape[1] and "
+            "forall(range(0, cal.real_data.shape[0]), lambda r: forall(range(0, cal.real_data.shape[1]), lambda q: "
+            "result.real_data[r, q] == cal.real_data[r, q]))",
+            "len(result.param_grid.parameters_precision) == len(cal.param_grid.parameters_precision) and "
+            "forall(range(0, len(cal.param_grid.parameters_precision)), lambda q: "
+            "result.param_grid.parameters_precision[q] == cal.param_grid.parameters_precision[q])",
+            f"implies(not old(disk_exists('{_H}')), {_SERIES_EQ})", f"implies(_same_run_prefix(), {_SERIES_EQ})"],
+         modifies=["ghost.disk", "ghost.saved_index", "ghost.saved_n"],
+         notes="theorem over the proved contracts of create_checkpoint and restore_from_checkpoint: every component of the "
+               "observable state comes back; the series only when the folder held no series file or an earlier checkpoint "
+               "of the same run (otherwise: known finding stale-series-file)")
